@@ -40,6 +40,10 @@ class ProbeEmitter:
             a('%s    p.op("array:fill", e_, [&] { %s.fill(typename decltype(%s)::value_type{}); });' % (ind, v, v))
             a('%s    p.op("array:assign", e_, [&] { %s.assign(%s.size(), typename decltype(%s)::value_type{}); });' % (ind, v, v, v))
             a('%s    p.op("array:size_bytes", e_, [&] { p.sink += ::sbepp::size_bytes(%s); });' % (ind, v))
+            # the re-typed view returned by raw() is a derived view: it must carry the same end
+            a('%s    p.op("array:raw-index", e_, [&] { auto r_ = %s.raw(); for(std::size_t i_ = 0; i_ < r_.size(); i_++) p.sink += (unsigned char)r_[i_]; });' % (ind, v))
+            a('%s    p.op("array:raw-fill", e_, [&] { auto r_ = %s.raw(); r_.fill(typename decltype(r_)::value_type{}); });' % (ind, v))
+            a('%s    p.op("array:raw-iterate", e_, [&] { auto r_ = %s.raw(); for(auto x_ : r_) p.sink += (unsigned char)x_; p.sink += r_.strlen_r(); });' % (ind, v))
             a('%s  }' % ind)
         elif node.kind == "composite":
             v = self.fresh("c")
@@ -110,6 +114,7 @@ class ProbeEmitter:
             a('%s    p.op("data:data-ptr", de_, [&] { p.sink += (::drv::u64)%s.data(); });' % (ind, dv))
             a('%s    p.op("data:resize-same", de_, [&] { %s.resize(%s.size()); });' % (ind, dv, dv))
             a('%s    p.op("data:assign_range-same", de_, [&] { std::vector<E_> c_(%s.begin(), %s.end()); %s.assign_range(c_); });' % (ind, dv, dv, dv))
+            a('%s    p.op("data:raw-index", de_, [&] { auto r_ = %s.raw(); for(typename decltype(r_)::size_type i_ = 0; i_ < r_.size(); i_++) p.sink += (unsigned char)r_[i_]; });' % (ind, dv))
             a('%s    p.op("data:assign-same", de_, [&] { std::vector<E_> c_(%s.begin(), %s.end()); %s.assign(c_.begin(), c_.end()); });' % (ind, dv, dv, dv))
             a('%s    p.op("data:erase-insert-same", de_, [&] { if(!%s.empty()) { E_ x_ = %s.back(); %s.pop_back(); %s.push_back(x_); E_ y_ = %s.front(); %s.erase(%s.begin()); %s.insert(%s.begin(), y_); } });'
               % (ind, dv, dv, dv, dv, dv, dv, dv, dv, dv))
